@@ -152,32 +152,16 @@ class FakeTransport(asyncio.DatagramTransport):
         return False
 
 
-class Sut:
-    def __init__(self, p2p_port=50000, rdac_port=50002, indexed=False):
+_LIB = {}
+
+
+def _lib():
+    """the classes under test (imported once) and the indexed storage subclass of the scale runs"""
+    if not _LIB:
         import okdmr.dmrlib.storage.repeater as rmod
         from okdmr.dmrlib.protocols.hytera.p2p_datagram_protocol import P2PDatagramProtocol
         from okdmr.dmrlib.protocols.hytera.rdac_datagram_protocol import RDACDatagramProtocol
         from okdmr.dmrlib.storage.repeater_storage import RepeaterStorage
-
-        self.rmod = rmod
-        self.saved_uuid = rmod.uuid
-        self.saved_snmp = rmod.Repeater.read_snmp_values
-        counter = itertools.count()
-        rmod.uuid = types.SimpleNamespace(uuid4=lambda: _uuid.UUID(int=next(counter)), UUID=_uuid.UUID)
-        self.snmp_fails = False
-        self.snmp_calls = 0
-        sut = self
-
-        def stub(self_rpt, *a, **k):
-            sut.snmp_calls += 1
-            if sut.snmp_fails:
-                raise SnmpStubError("stubbed SNMP failure")
-            return {}
-
-        rmod.Repeater.read_snmp_values = stub
-        self.R = RDACDatagramProtocol
-        self.P = P2PDatagramProtocol
-        self.log = []
 
         class IndexedStorage(RepeaterStorage):
             """a RepeaterStorage whose lookup by incoming address is a dict lookup: the index is kept by create_repeater
@@ -201,10 +185,37 @@ class Sut:
                         pass
                 return super().match_attr(attr_name, match_value)
 
-        self.storage = IndexedStorage() if indexed else RepeaterStorage()
-        self.p2p = P2PDatagramProtocol(self.storage, p2p_port=p2p_port, rdac_port=rdac_port)
+        _LIB.update(rmod=rmod, P=P2PDatagramProtocol, R=RDACDatagramProtocol, S=RepeaterStorage, I=IndexedStorage)
+    return _LIB
+
+
+class Sut:
+    def __init__(self, p2p_port=50000, rdac_port=50002, indexed=False):
+        lib = _lib()
+        rmod = lib["rmod"]
+        self.rmod = rmod
+        self.saved_uuid = rmod.uuid
+        self.saved_snmp = rmod.Repeater.read_snmp_values
+        counter = itertools.count()
+        rmod.uuid = types.SimpleNamespace(uuid4=lambda: _uuid.UUID(int=next(counter)), UUID=_uuid.UUID)
+        self.snmp_fails = False
+        self.snmp_calls = 0
+        sut = self
+
+        def stub(self_rpt, *a, **k):
+            sut.snmp_calls += 1
+            if sut.snmp_fails:
+                raise SnmpStubError("stubbed SNMP failure")
+            return {}
+
+        rmod.Repeater.read_snmp_values = stub
+        self.R = lib["R"]
+        self.P = lib["P"]
+        self.log = []
+        self.storage = lib["I"]() if indexed else lib["S"]()
+        self.p2p = self.P(self.storage, p2p_port=p2p_port, rdac_port=rdac_port)
         self.p2p.connection_made(FakeTransport(self.log))
-        self.rdac = RDACDatagramProtocol(self.storage, callback=lambda rid: self.log.append(("cb", rid)))
+        self.rdac = self.R(self.storage, callback=lambda rid: self.log.append(("cb", rid)))
         self.rdac.connection_made(FakeTransport(self.log))
         self.p2p_port, self.rdac_port = p2p_port, rdac_port
         self.created = []
@@ -847,14 +858,14 @@ def apply(sut, oracle, sym, pairs, ctx):
     elif sym[0] == "setattr":
         _, addr, key, value = sym
         if oracle:
-            oracle.history.append(["setattr", jaddr(addr), key, value])
+            oracle.history.append(["setattr", jaddr(addr), key, jv(value)])
             oracle.env_attr(addr, key, value)
         pairs.append(sut.set_attr(addr, key, value))
         exc = None
     else:
         _, addr, out_addr = sym
         if oracle:
-            oracle.history.append(["setout", jaddr(addr), list(out_addr)])
+            oracle.history.append(["setout", jaddr(addr), jv(out_addr) if not (type(out_addr) is tuple and len(out_addr) == 2) else list(out_addr)])
         pairs.append(sut.set_out(addr, out_addr))
         exc = None
     ctx.count(f"sym:{sym[0]}")
@@ -933,8 +944,19 @@ CORPUS = [
 ]
 
 
-def random_sym(rng, nm=None, peers=PEERS):
+def random_sym(rng, nm=None, peers=PEERS, hv=None):
     peer = rng.choice(peers)
+    if hv is not None and rng.random() < 0.12:
+        # library sentinels / defaults / literals of the current source (see Harvest) as source address, key, value, content
+        k = rng.randrange(100)
+        who = rng.choice(hv.peers_core) if rng.random() < 0.7 else peer
+        if k < 45:
+            return ("p2p", who, rng.choice([p2p_command(0x10), p2p_ping(16), p2p_ping(16), p2p_command(0x11), p2p_command(0x12)]), rng.random() < 0.05)
+        if k < 58:
+            return ("rdac", who, rng.choice([b"\x55\x55", RESP_FD, b"\x00", RESP_10]), False)
+        if k < 85:
+            return ("setattr", rng.choice(list(peers) + hv.peers_core[:3]), rng.choice(hv.keys), rng.choice(hv.values + list(peers) + hv.peers_core))
+        return (rng.choice(["p2p", "rdac"]), who, rng.choice(hv.datagrams)[1], False)
     if nm is not None and rng.random() < 0.15:
         # a near miss of one of the compared values, wherever the history happens to be
         k = rng.randrange(100)
@@ -1266,6 +1288,440 @@ def run_peer_shapes(ctx, pairs, flush):
 
 
 # ------------------------------------------------------------------------------------------------
+# library sentinels, default values and the literals of the CURRENT source, used as inputs (round 4).  Nothing here is a
+# fixed list: the values are read at run time from the tree under test (the handlers', the storage's and the record's
+# source with `ast`, their module / class constants, signature defaults and the members of freshly created records) and
+# become peer addresses, attribute keys, attribute values and datagram contents.
+
+_IDENT = re.compile(r"[A-Za-z0-9_.\-]+")
+
+
+def _simple(v) -> bool:
+    if v is None or type(v) in (bool, int, str, bytes):
+        return True
+    return type(v) is tuple and all(_simple(x) for x in v)
+
+
+def is_addr(v) -> bool:
+    return type(v) is tuple and len(v) >= 2 and type(v[0]) is str and all(type(x) is int and x >= 0 for x in v[1:])
+
+
+def _lit_hash(v) -> str:
+    import hashlib
+
+    return hashlib.sha1(repr(v).encode()).hexdigest()[:10]
+
+
+# the literals of the five anchored files as they were when this check was last reviewed (sha1 of repr, 10 hex digits).  A
+# literal of the current source that is NOT in here came with a change: it is tried first and in every role it can play
+# (host, port, octet, key, value, datagram content, identification field) - see Harvest.fresh_*
+BASELINE_LITERALS = frozenset("""
+00c5608161 0487111053 0716d9708d 09d590a5ab 0ade7c2cf9 0bad865a02 0fe9d1befc 10a25c7213 114d4eefde 1219ad2457
+12c6fc06c9 13dc215e0b 14287ecb66 1574bddb75 15c5bc6a63 17503a6b23 17ba079149 18102ecf93 1a013f464d 1a3a4c390b
+1b64538924 1cc6419540 1efd4d8b20 21239b7e82 212bf2b133 2283bb3d11 22dd0956b1 2731c1c35f 2856731fb4 293b1ec68e
+29f5255dc0 2a45938070 2a7541babb 2d0c8af807 2ee9c46b50 2ef8126078 2fd6438d84 3028f51407 310b86e0b6 3167bd7b40
+356a192b79 365e738e3e 36d073dae7 37cad8164d 39559af8ad 3a9e32cd54 3f9ca0ebac 400c0e4a6d 4197880fbc 450ddec8dd
+472b07b9fc 4904e6851b 4a24520021 4afa8f9e90 4c15dc21c9 4d134bc072 4dea1daedb 4f16020077 5193e6c709 5452f8c795
+54ceb91256 584130e068 5b1d17d855 5b95d362ba 5c7322c10c 5d098d4383 5e796e4833 5f1cd7c3fb 5f83d7a27f 6052521b76
+6b6277afcb 6e6ed6e8f5 6fb84aed32 752ae7bdbb 7719a1c782 775bc5c30e 77a9e48d59 77de68daec 7aa38731e6 7b4deb8440
+7b52009b64 7e9d9fc4cc 812ed4562d 86858728ca 87d538ef1c 887309d048 88ad0bc928 902ba3cda1 91032ad7bb 91dfde1d6e
+94b8eeebdb 95c9e7d062 99bff373e8 9a15f42d1c 9d342719fd 9d8974badd 9e6a55b6b4 a1ac1116dc a1e52b3946 a763f0459d
+ac3478d69a ac5966e711 aebd5ff7da b0bd9e02ed b16e07a5fd b1d5781111 b1f9dc9956 b37f6ddcef b49b6d7db1 b4be52e053
+b6589fc6ab b6692ea5df b6ee60926c b888b29826 ba30fd97b4 bcf814ab41 bd307a3ec3 be057d4ca4 c1dfd96eea c2d4c5452f
+c9f13c1614 ca90908f68 cae91e45ae cb4e5208b4 cb7a1d775e cc47de6971 cdbfc6c4b5 ce38c6faff cfe21c6800 d6e3de36b0
+d8dfee6d6e da4b9237ba db01dca2f3 dcac9006f9 e1822db470 e2154fea5d e43b70df8c e62d7f1eb4 e71533ebbf e755eddc5d
+e82068504f efa6e44dfa f17198b443 f1abd67035 f2ef873299 f69359d9bd f6e1126ced f7a6a12988 f8c88086ab fa35e19212
+fe5dbbcea5 ff42f8731d
+""".split())
+
+
+class Harvest:
+    """what the anchored code itself contains or defaults to:
+    strings / ints / bytes_ / tuples : every literal of the current source of the five anchored files (ast)
+    defaults                        : (owner, name, value) of module constants, class constants, signature defaults
+    record_defaults                 : member -> value of a freshly created / auto-created Repeater (the UNSET values)"""
+
+    PINNED_EMPTY = ("", 0)  # ADDRESS_EMPTY as the property was read; the live constant is harvested on top of it
+
+    def __init__(self):
+        self.strings, self.ints, self.bytes_, self.tuples, self.defaults = [], [], [], [], []
+        self.record_defaults, self.errors, self.files = {}, [], 0
+        try:
+            self._read()
+        except Exception as e:  # noqa  (a tree that cannot be introspected: the pinned values remain)
+            self.errors.append(impl_error(e))
+        self._derive()
+
+    @staticmethod
+    def _add(lst, v):
+        for x in lst:
+            if type(x) is type(v) and x == v:
+                return
+        lst.append(v)
+
+    def _read(self):
+        import ast
+        import inspect
+
+        import okdmr.dmrlib.protocols.hytera.p2p_datagram_protocol as pmod
+        import okdmr.dmrlib.protocols.hytera.rdac_datagram_protocol as dmod
+        import okdmr.dmrlib.storage as spkg
+        import okdmr.dmrlib.storage.repeater as rmod
+        import okdmr.dmrlib.storage.repeater_storage as smod
+
+        mods = [spkg, rmod, smod, pmod, dmod]
+        for m in mods:
+            try:
+                tree = ast.parse(open(inspect.getsourcefile(m), encoding="utf-8").read())
+                self.files += 1
+            except Exception as e:  # noqa
+                self.errors.append(impl_error(e))
+                continue
+            for n in ast.walk(tree):
+                if isinstance(n, ast.Constant):
+                    v = n.value
+                    if type(v) is str:
+                        self._add(self.strings, v)
+                    elif type(v) is int:
+                        self._add(self.ints, v)
+                    elif type(v) is bytes:
+                        self._add(self.bytes_, v)
+                    elif type(v) is float and v == int(v):
+                        self._add(self.ints, int(v))
+                elif isinstance(n, (ast.Tuple, ast.List, ast.UnaryOp)):
+                    try:
+                        v = ast.literal_eval(n)
+                    except Exception:  # noqa
+                        continue
+                    if type(v) is int:
+                        self._add(self.ints, v)
+                    elif type(v) in (tuple, list) and _simple(tuple(v)):
+                        self._add(self.tuples, tuple(v))
+        classes = [pmod.P2PDatagramProtocol, dmod.RDACDatagramProtocol, smod.RepeaterStorage, rmod.Repeater]
+        for owner in mods + classes:
+            for name, v in list(vars(owner).items()):
+                if name.startswith("__"):
+                    continue
+                if type(v) is list:
+                    v = tuple(v)
+                if _simple(v) and v is not None and type(v) is not bool:
+                    self._add(self.defaults, (getattr(owner, "__name__", str(owner)).rsplit(".", 1)[-1], name, v))
+        for cls in classes:
+            for name, fn in list(vars(cls).items()):
+                fn = getattr(fn, "__func__", fn)
+                if not callable(fn):
+                    continue
+                try:
+                    params = inspect.signature(fn).parameters.values()
+                except (TypeError, ValueError):
+                    continue
+                for p in params:
+                    if p.default is not inspect.Parameter.empty and _simple(p.default):
+                        self._add(self.defaults, (f"{cls.__name__}.{name}", p.name, p.default))
+        # the unset values: members of a record nobody configured (direct, through the factory, auto-created)
+        probe = ("192.0.2.77", 7)
+        st = smod.RepeaterStorage()
+        for rec in (rmod.Repeater(), st.create_repeater(), st.match_incoming(probe, auto_create=True)):
+            for name, v in vars(rec).items():
+                name = name.replace("_Repeater__", "")
+                if _simple(v) and v != probe:
+                    self.record_defaults.setdefault(name, [])
+                    self._add(self.record_defaults[name], v)
+        self.members = [n for n in vars(rmod.Repeater())]
+        self.non_data = [n for n in dir(rmod.Repeater()) if n not in FIELDS]
+
+    def _derive(self):
+        members = getattr(self, "members", [])
+        non_data = set(getattr(self, "non_data", [])) | {"logger", "_Repeater__attrs"}
+        vals = list(self.tuples) + [v for _, _, v in self.defaults] + [v for vs in self.record_defaults.values() for v in vs]
+        # ---- addresses
+        self.addrs = [self.PINNED_EMPTY]
+        for v in vals:
+            if is_addr(v):
+                self._add(self.addrs, v)
+        self.default_ports = []
+        for owner, name, v in self.defaults:
+            if type(v) is int and "port" in name.lower() and 0 <= v < 65536:
+                self._add(self.default_ports, v)
+        for a in self.addrs:
+            self._add(self.default_ports, a[1])
+        for p in (50000, 50002):  # as pinned in proto_pinned
+            self._add(self.default_ports, p)
+        self.addr_members = [n for n, vs in self.record_defaults.items() if any(is_addr(v) for v in vs) and n != "address_in"] or ["address_out", "address_nat"]
+        short = [s for s in self.strings if len(s) <= 17 and "\n" not in s]
+        # literals that came with a change of the source (not in the reviewed baseline)
+        self.fresh_strings = [s for s in self.strings if _lit_hash(s) not in BASELINE_LITERALS]
+        self.fresh_ints = [i for i in self.ints if _lit_hash(i) not in BASELINE_LITERALS]
+        self.fresh_tuples = [t for t in self.tuples if _lit_hash(t) not in BASELINE_LITERALS]
+        self.fresh_bytes = [b for b in self.bytes_ if _lit_hash(b) not in BASELINE_LITERALS]
+        ports_extra = [i for i in self.ints if 256 <= i < 65536] + [i for i in self.fresh_ints if 0 <= i < 256]
+        core = []
+        for a in self.addrs:
+            core += [a, a + (0, 0), (a[0], a[1] + 1), (a[0] + " ", a[1]), (a[0] + "0", a[1]), a + (0,)]
+        for h in [a[0] for a in self.addrs] + [P1[0], P3[0]]:
+            for p in self.default_ports:
+                core.append((h, p))
+        for p in ports_extra:  # every larger int literal (and every NEW small one) as a source port
+            core += [(P1[0], p), (self.addrs[0][0], p)]
+        for sfx in self.fresh_strings:  # every NEW string literal as a host (its text, and as a prefix / suffix of a peer's)
+            if len(sfx) <= 40:
+                core += [(sfx, P1[1]), (sfx, 0), (P1[0] + sfx, P1[1]), (sfx + P1[0], P1[1])]
+        for t in self.fresh_tuples:  # a NEW tuple literal whose elements could be (host, port ...)
+            if is_addr(t):
+                core += [t, (t[0], P1[1]), (P1[0], t[1])]
+        self.peers_core = []
+        for a in core:
+            if a not in PEERS:
+                self._add(self.peers_core, a)
+        self.peers_more = []
+        for s in short:
+            for p in self.default_ports[:2] + [0]:
+                if (s, p) not in PEERS and (s, p) not in self.peers_core:
+                    self._add(self.peers_more, (s, p))
+        # ---- attribute names: every identifier-like literal and every data member, but not what envOk excludes (id,
+        # address_in; the is-registered key itself is followed by the oracle and has its own section) and not a name that
+        # would replace a method / the private dict of the record (no data member: outside the storage model)
+        self.keys = []
+        for k in list(FIELDS) + list(members) + self.strings:
+            if type(k) is str and _IDENT.fullmatch(k) and len(k) <= 40 and k not in ("id", "address_in", SPEC["p2pIsRegisteredKey"]) and k not in non_data:
+                self._add(self.keys, k)
+        # ---- attribute values
+        self.values = [None, True, False]
+        for v in self.fresh_strings + self.fresh_ints + self.fresh_tuples + self.addrs + self.peers_core[:6] + [s for s in short if len(s) <= 12] + [i for i in self.ints if 0 <= i <= 65536][:24] + [t for t in self.tuples if len(t) <= 5]:
+            self._add(self.values, v)
+        for vs in self.record_defaults.values():
+            for v in vs:
+                self._add(self.values, v)
+        # ---- datagram contents
+        dgs = []
+
+        def dg(tag, b):
+            if all(b != x for _, x in dgs):
+                dgs.append((tag, bytes(b)))
+
+        for b in self.bytes_:
+            dg("bytes-literal", b)
+        for owner, name, v in self.defaults:
+            if type(v) is bytes:
+                dg(f"const:{name}", v)
+            elif type(v) is tuple and v and all(type(x) is int and 0 <= x < 256 for x in v):
+                dg(f"const:{name}", bytes(v))
+        for t in self.tuples:
+            if t and all(type(x) is int and 0 <= x < 256 for x in t):
+                dg("int-list-literal", bytes(t))
+        for s in self.strings:
+            if len(s) <= 40:
+                dg("str-literal", s.encode("utf-8", "surrogatepass"))
+                dg("str-literal-utf16", s.encode("utf_16_le", "surrogatepass"))
+        for i in self.ints:
+            if 0 <= i < 256:
+                dg(f"int-literal:{i}", bytes([i]))
+            elif 0 <= i < 65536:
+                dg("int-literal-le16", i.to_bytes(2, "little"))
+                dg("int-literal-be16", i.to_bytes(2, "big"))
+            if 1 < i <= 300:
+                dg(f"int-literal-zeros:{i}", bytes(i))  # `bytes(n)`: n NUL octets
+        self.datagrams = dgs
+        self.octets = [i for i in self.ints if 0 <= i < 256]
+
+
+def sentinel_states(S, hv):
+    """registration states seen from a source address S that never registered: who holds the FIRST record of the storage,
+    and whether that record completed registration"""
+    reg = p2p_command(0x10)
+    other = ("10.0.0.9", 50000)
+    nat_member = hv.addr_members[-1]
+    return [
+        ("fresh", []),
+        ("first-registered", [("p2p", P1, reg, False)]),
+        ("first-registered,second-known", [("p2p", P1, reg, False), ("rdac", P3, b"\x55\x55", False)]),
+        ("first-known,second-registered", [("rdac", P1, b"\x55\x55", False), ("p2p", P3, reg, False)]),
+        ("first-failed-snmp,second-registered", [("p2p", P1, reg, True), ("p2p", P3, reg, False)]),
+        ("first-registered-with-addresses", [("p2p", P1, reg, False), ("setout", P1, ("192.0.2.9", 40000)), ("setattr", P1, nat_member, other)]),
+        ("all-three-registered", [("p2p", P1, reg, False), ("p2p", P2, reg, False), ("p2p", P3, reg, False)]),
+    ]
+
+
+def sentinel_sections(ctx, hv, nm, pairs, flush):
+    reg, ping, dmr, rdacq = p2p_command(0x10), p2p_ping(16), p2p_command(0x11, rid=7, length=30, fill=3), p2p_command(0x12, rid=0, length=21)
+    thorough = ctx.thorough() or ctx.boost > 1
+    ctx.count("harvest:files-read", hv.files)
+    ctx.count("harvest:string-literals", len(hv.strings))
+    ctx.count("harvest:int-literals", len(hv.ints))
+    ctx.count("harvest:tuple-literals", len(hv.tuples))
+    ctx.count("harvest:constants-and-defaults", len(hv.defaults))
+    ctx.count("harvest:record-default-members", len(hv.record_defaults))
+    ctx.count("harvest:address-shaped-values", len(hv.addrs))
+    ctx.count("harvest:attribute-names", len(hv.keys))
+    ctx.count("harvest:datagram-contents", len(hv.datagrams))
+    ctx.count("harvest:literals-not-in-the-reviewed-baseline", len(hv.fresh_strings) + len(hv.fresh_ints) + len(hv.fresh_tuples) + len(hv.fresh_bytes))
+    if hv.errors:
+        ctx.count("harvest:errors", len(hv.errors))
+    more = list(hv.peers_more)
+    ctx.rng.shuffle(more)
+    sentinels = hv.peers_core + more[: (len(more) if thorough else 4)]
+    # ---- 1. every sequence up to length 2 (quick) / 3 over the requests of ONE sentinel source S (plus a ping of the first
+    # peer and an RDAC datagram of S, which auto-creates S's record), after every registration state of the storage
+    n = 0
+    for S in sentinels:
+        alpha = [("p2p", S, ping, False), ("p2p", S, dmr, False), ("p2p", S, rdacq, False), ("p2p", S, reg, False),
+                 ("p2p", P1, ping, False), ("rdac", S, b"\x55\x55", False)]
+        for sname, pre in sentinel_states(S, hv):
+            for L in range(1, (3 if thorough else 2) + 1):
+                for seq in itertools.product(range(len(alpha)), repeat=L):
+                    run_history(ctx, [alpha[i] for i in seq], pairs, prefix=pre)
+                    ctx.case(("sentinel", S, sname, seq), sample={"class": "library sentinel as source address", "source": jaddr(S), "state": sname, "requests": [sym_json(alpha[i]) for i in seq]} if (S, sname, seq) == (Harvest.PINNED_EMPTY, "first-registered", (0, 3)) else None)
+                    n += 1
+            if len(pairs) > 300000:
+                flush("handshake.sentinel")
+    ctx.count("sentinel:source-addresses", len(sentinels))
+    ctx.count("sentinel:exhaustive-after-state", n)
+    flush("handshake.sentinel")
+    # ---- 1b. handlers configured with OTHER ports: sources whose port is the configured P2P / RDAC port, or the default one
+    cfg_ports = (62000, 65535)
+    n = 0
+    for S in [(P1[0], cfg_ports[0]), (P1[0], cfg_ports[1]), (hv.addrs[0][0], cfg_ports[0]), (hv.addrs[0][0], cfg_ports[1]), hv.addrs[0], (P3[0], (hv.default_ports or [50000])[0])]:
+        alpha = [("p2p", S, ping, False), ("p2p", S, dmr, False), ("p2p", S, rdacq, False), ("p2p", S, reg, False), ("p2p", P1, ping, False), ("p2p", P1, dmr, False)]
+        for sname, pre in sentinel_states(S, hv):
+            for L in (1, 2):
+                for seq in itertools.product(range(len(alpha)), repeat=L):
+                    run_history(ctx, [alpha[i] for i in seq], pairs, ports=cfg_ports, prefix=pre)
+                    ctx.case(("sentinel-ports", S, sname, seq))
+                    n += 1
+    ctx.count("sentinel:other-configured-ports", n)
+    flush("handshake.sentinel-ports")
+    # ---- 1c. a sentinel source runs the whole RDAC identification (its host may be '' or a literal) while the first peer is in
+    # the middle of its own: each run advances on its own responses only and completes once
+    n = 0
+    for S in sentinels:
+        if S[0] == P1[0]:
+            continue  # the step table is per host: a source behind the first peer's IP shares its run (corpus, exhaustive RDAC)
+        h = [("p2p", P1, reg, False)] + [("rdac", P1, d, False) for d in drive_to(5)]
+        for st in STEP_ORDER[:-1]:
+            h += [("rdac", S, expected_for(st), False)]
+            if st in (3, 8):
+                h += [("rdac", P1, expected_for(st), False), ("p2p", S, ping, False)]
+        h += [("rdac", S, RESP_FA, False), ("rdac", S, b"\x00", False), ("rdac", P1, expected_for(5), False), ("p2p", S, rdacq, False), ("p2p", P1, rdacq, False)]
+        run_history(ctx, h, pairs)
+        ctx.case(("sentinel-rdac", S))
+        n += 1
+    ctx.count("sentinel:rdac-identification-by-a-sentinel-source", n)
+    flush("handshake.sentinel-rdac")
+    # ---- 2. every P2P sequence up to length 3 / 4 from the INITIAL state over the requests of the first peer and of the
+    # sentinel sources (the sentinel may itself be the first record)
+    S0 = hv.addrs[0]
+    S1 = hv.addrs[-1] if hv.addrs[-1] != S0 else (S0[0], (hv.default_ports or [50000])[0])
+    alpha = []
+    for p in (P1, S0):
+        alpha += [("p2p", p, reg, False), ("p2p", p, ping, False), ("p2p", p, dmr, False), ("p2p", p, rdacq, False)]
+    alpha += [("p2p", S1, ping, False), ("p2p", S1, reg, False), ("p2p", P1, reg, True), ("setattr", P1, hv.addr_members[-1], S1)]
+    n = 0
+    for L in range(1, (4 if thorough else 3) + 1):
+        for seq in itertools.product(range(len(alpha)), repeat=L):
+            run_history(ctx, [alpha[i] for i in seq], pairs)
+            ctx.case(("sentinel-x", seq))
+            n += 1
+            if len(pairs) > 300000:
+                flush("handshake.sentinel-x")
+    ctx.count("sentinel:exhaustive-from-init", n)
+    flush("handshake.sentinel-x")
+    # ---- 3. a value stored in ANOTHER member / attribute of a record is used as a source address: the application (or the
+    # RDAC payload) wrote X under key K of the first peer's record; X never registered and stays a stranger
+    strangers = [P3, P2, S0, ("10.0.0.9", 50000), ("10.0.0.1", 50000, 0, 0), Addr2("10.0.0.8", 50000)]  # (stored as a namedtuple, == the plain tuple that asks)
+    keys = list(hv.addr_members) + [k for k in hv.keys if k not in hv.addr_members]
+    if not thorough:
+        rest = [k for k in keys if k not in hv.addr_members and k not in FIELDS]
+        ctx.rng.shuffle(rest)
+        fresh = [k for k in rest if k in hv.fresh_strings]
+        keys = list(hv.addr_members) + [k for k in FIELDS if k in hv.keys and k not in hv.addr_members] + fresh + [k for k in rest if k not in fresh][:8]
+    n = 0
+    for K in keys:
+        for X in strangers:
+            for sname, pre in (("first-registered", [("p2p", P1, reg, False)]), ("first-known", [("rdac", P1, b"\x55\x55", False)]),
+                               ("second-registered", [("p2p", ("10.0.0.7", 50000), reg, True), ("p2p", P1, reg, False)])):
+                A = tuple(X)  # who asks: the plain tuple
+                follow = [("setattr", P1, K, X), ("p2p", A, ping, False), ("p2p", A, dmr, False), ("p2p", A, rdacq, False), ("rdac", A, b"\x55\x55", False),
+                          ("p2p", A, ping, False), ("p2p", P1, ping, False), ("p2p", P1, rdacq, False), ("p2p", A, reg, False), ("p2p", A, ping, False), ("p2p", P1, dmr, False)]
+                run_history(ctx, follow, pairs, prefix=pre)
+                ctx.case(("attr-as-address", K, X, sname), sample={"class": "stored attribute value used as source address", "key": K, "value": jaddr(X), "state": sname} if (K, X, sname) == (hv.addr_members[-1], P3, "first-registered") else None)
+                n += 1
+    ctx.count("sentinel:attribute-names-used", len(keys))
+    ctx.count("sentinel:attr-value-as-address-histories", n)
+    flush("handshake.attr-as-address")
+    # ---- 4. harvested values under harvested keys (and under the is-registered key: the application's own decision, followed
+    # by the oracle) never change who is served
+    KEY = SPEC["p2pIsRegisteredKey"]
+    n = 0
+    vals = list(hv.values)
+    if not thorough:
+        ctx.rng.shuffle(vals)
+        nfresh = len(hv.fresh_strings) + len(hv.fresh_ints) + len(hv.fresh_tuples)
+        vals = hv.values[3 : 3 + nfresh] + [v for v in hv.values[3 + nfresh :] if is_addr(v)][:4] + vals[:10]
+    for v in vals:
+        for K in [KEY] + ctx.rng.sample(keys, min(3, len(keys))):
+            run_history(ctx, [("setattr", P1, K, v)] + P2P_FOLLOW + [("p2p", P1, reg, False), ("setattr", P1, K, v)] + P2P_FOLLOW + [("p2p", P3, ping, False)], pairs)
+            run_history(ctx, [("setattr", P3, K, v)] + P2P_FOLLOW + [("p2p", P3, ping, False)], pairs, prefix=[("p2p", P1, reg, False)])
+            ctx.case(("sentinel-value", K, repr(v)))
+            n += 2
+    ctx.count("sentinel:attribute-value-histories", n)
+    flush("handshake.sentinel-values")
+    # ---- 5. the literals as datagram contents: alone (as they stand), at the offsets the handlers read (octet 20 = packet
+    # type, octet 4 = repeater id, 4..8 = ping prefix, 0.. = command prefix / RDAC response prefix), to both handlers, from a
+    # registered and from an unknown peer / at several RDAC steps; the run goes on as if nothing had happened
+    n = 0
+    dgs = list(hv.datagrams)
+    for i in hv.octets:
+        dgs.append((f"type-octet:{i}", p2p_command(i, rid=1)))
+        dgs.append((f"id-octet:{i}", p2p_command(0x10 if i % 2 else 0x12, rid=i)))
+    for tag, b in hv.datagrams:
+        if 2 <= len(b) <= 12:
+            d = bytearray(p2p_ping(16))
+            d[4 : 4 + len(b)] = b
+            dgs.append((tag + "@4", bytes(d[:24])))
+            dgs.append((tag + "+body", b + LONG_00[len(b):]))
+    if not thorough:
+        sampled = lambda x: x[0].startswith(("type-octet", "id-octet", "int-literal:", "int-literal-zeros")) and not any(x[0].endswith(f":{i}") for i in hv.fresh_ints)  # noqa: E731
+        keep = [x for x in dgs if not sampled(x)]
+        rest = [x for x in dgs if sampled(x)]
+        ctx.rng.shuffle(rest)
+        dgs = keep + rest[:60]
+    steps = STEP_ORDER if thorough else [0, 1, 3, 6, 13, 14]
+    for j, (tag, d) in enumerate(dgs):
+        for sname, pre in (("fresh", []), ("registered", [("p2p", P1, reg, False), ("p2p", P3, reg, False)])):
+            run_history(ctx, [("p2p", P1, d, j % 4 == 0)] + P2P_FOLLOW, pairs, prefix=pre)
+            n += 1
+        st = steps[j % len(steps)]
+        tail = [("rdac", P1, expected_for(st), False)]
+        run_history(ctx, [("rdac", P1 if j % 3 else P2, d, False)] + tail, pairs, prefix=[("rdac", P1, x, False) for x in drive_to(st)])
+        n += 1
+        ctx.case(("literal-datagram", tag, d.hex()[:40]))
+        ctx.count(f"sentinel:datagram:{tag.split(':')[0].split('@')[0].split('+')[0]}")
+        if len(pairs) > 300000:
+            flush("handshake.literal-datagrams")
+    ctx.count("sentinel:literal-datagram-histories", n)
+    flush("handshake.literal-datagrams")
+    # ---- 6. the UNSET values inside the RDAC identification payload: two peers (the first one registered) identify with
+    # bodies whose fields are the defaults of a record / harvested strings (equal for both); each stays who it is
+    strs = [""] + [s for s in hv.fresh_strings if 0 < len(s) <= 16] + [s for s in hv.strings if 0 < len(s) <= 10 and "\n" not in s and s not in hv.fresh_strings][: (12 if thorough else 3)]
+    ids = [0] + [i for i in hv.fresh_ints if 0 < i < (1 << 24)] + [i for i in hv.ints if 0 < i < (1 << 24)][-2:]
+    n = 0
+    for s in strs:
+        for dmr_id in ids:
+            body = rdac_body(RESP_00, callsign=s, hardware=s, firmware=s, serial=s, dmr_id=dmr_id, tx=0, rx=0)
+
+            def run_of(peer, upto):
+                return [("rdac", peer, body if expected_for(st) is LONG_00 else expected_for(st), False) for st in STEP_ORDER[: STEP_ORDER.index(upto)]]
+
+            h = [("p2p", P1, reg, False)] + run_of(P1, 11) + run_of(P3, 11) + [("p2p", P3, ping, False), ("p2p", P3, dmr, False), ("p2p", P1, ping, False), ("p2p", P1, rdacq, False)]
+            h += [("rdac", P3, expected_for(st), False) for st in (11, 12, 13)] + [("p2p", P3, rdacq, False), ("p2p", P1, dmr, False)]
+            run_history(ctx, h, pairs)
+            ctx.case(("rdac-default-fields", s, dmr_id))
+            n += 1
+    ctx.count("sentinel:rdac-bodies-with-default-field-values", n)
+    flush("handshake.rdac-default-fields")
+
+
+# ------------------------------------------------------------------------------------------------
 # scale: many distinct peers on ONE handler instance (step table / registered flags have no bound)
 
 
@@ -1526,15 +1982,66 @@ def sym_json(s):
     return [s[0], list(s[1])] + [x.hex() if isinstance(x, bytes) else (list(x) if isinstance(x, tuple) else x) for x in s[2:]]
 
 
+class AsyncCorrespondence:
+    """the model driver works on one batch of lines (a separate process) while this process generates the next histories;
+    batches are compared in order, one at a time; an error of the driver is raised when the run ends"""
+
+    def __init__(self, ctx):
+        import queue
+        import threading
+
+        self.ctx, self.err = ctx, None
+        self.q = queue.Queue(maxsize=2)
+        self.t = threading.Thread(target=self.loop, daemon=True)
+        self.t.start()
+
+    def loop(self):
+        while True:
+            item = self.q.get()
+            if item is None:
+                return
+            if self.err is None:
+                try:
+                    self.ctx.correspond(*item)
+                except BaseException as e:  # noqa
+                    self.err = e
+
+    def put(self, component, pairs):
+        self.q.put((component, pairs))
+
+    def close(self):
+        self.q.put(None)
+        self.t.join()
+        if self.err is not None:
+            raise self.err
+
+    def abort(self):
+        """the run itself failed: batches still waiting are dropped, the one being compared is finished"""
+        self.err = self.err or RuntimeError("aborted")
+        try:
+            while True:
+                self.q.get_nowait()
+        except Exception:  # noqa  (queue.Empty)
+            pass
+        self.q.put(None)
+        self.t.join()
+
+
 def run(ctx):
     logging.disable(logging.CRITICAL)
+    corr = AsyncCorrespondence(ctx)
     try:
-        _run(ctx)
+        try:
+            _run(ctx, corr)
+        except BaseException:
+            corr.abort()
+            raise
+        corr.close()
     finally:
         logging.disable(logging.NOTSET)
 
 
-def _run(ctx):
+def _run(ctx, corr):
     ctx.rule = (
         "datagram histories from 3 peers (two sharing an IP) delivered to P2PDatagramProtocol and RDACDatagramProtocol on one "
         "shared storage with recording transports: corpus; P2P: every sequence up to length 4 (quick) / 5 (thorough) over 19 "
@@ -1563,8 +2070,25 @@ def _run(ctx):
         "on ONE RDAC and ONE P2P handler instance (indexed storage subclass) and 9 000 / 17 000 over the plain storage, O(1) checks "
         "per delivery (sender's step / answer, size of the step table, completion once, destinations), the whole step table / all "
         "registered flags against a mirror at powers of two +-1, every 1024 peers and the end; early finished / half-finished / "
-        "silent peers and a sample of old and new peers continue afterwards. Distinct = distinct symbol sequence; non-trivial = at "
-        "least one datagram dispatches"
+        "silent peers and a sample of old and new peers continue afterwards. LIBRARY SENTINELS / DEFAULTS / LITERALS OF THE CURRENT "
+        "SOURCE AS INPUTS (Harvest, read at run time): every string / int / bytes / tuple literal of the five anchored files (ast), "
+        "their module and class constants, signature defaults and the members of a freshly created / auto-created record (the unset "
+        "values: ADDRESS_EMPTY ('', 0) in address_out / address_nat, '' , 0, None); literals that are not in the reviewed baseline "
+        "(they came with a change) are tried first and in every role.  As SOURCE ADDRESSES: the sentinel and its neighbours (('', 0), "
+        "('', 0, 0, 0), ('', 1), (' ', 0), hosts '' / a peer's with every default port and every larger int literal as port, new string "
+        "literals as host / host prefix / suffix): every sequence up to length 2 / 3 over {ping, DMR, RDAC start-up, registration of "
+        "the sentinel source, ping of the first peer, an RDAC datagram of the source} after each of 7 registration states of the "
+        "storage (first record registered / known only / failed SNMP, second registered, addresses stored, all registered), and every "
+        "P2P sequence up to length 3 / 4 from the initial state over the first peer's and the sentinel sources' requests.  As "
+        "ATTRIBUTE VALUES EQUAL TO A SOURCE ADDRESS: the application stores X under every address-valued member (address_out, "
+        "address_nat), every other data member and every harvested attribute name of the first peer's record, X in {another peer, "
+        "the sibling behind the IP, the sentinel, a stranger, an IPv6 4-tuple}; X asks for everything and stays a stranger until it "
+        "registers itself.  Harvested values under harvested keys and under the is-registered key.  As DATAGRAM CONTENTS: every "
+        "constant / literal (as it stands, at octets 4.. of a ping, in front of an identification body; every int literal as packet "
+        "type and as repeater id) to both handlers, from a registered and an unknown peer and at 6 / 14 RDAC steps.  As RDAC "
+        "identification fields: bodies whose strings / dmr_id are the record defaults and harvested literals, equal for two peers. "
+        "12 % of the symbols of every second random history are drawn from these pools. "
+        "Distinct = distinct symbol sequence; non-trivial = at least one datagram dispatches"
     )
     ctx.trusted_base += [
         "Lean 4.33 kernel",
@@ -1574,6 +2098,7 @@ def _run(ctx):
         "Repeater.read_snmp_values is stubbed (returns {} or raises on demand); uuid4 is a counter",
         "Python's utf_16_le / utf-8 codecs are modelled on code points (decodeField) and only cross-checked here",
         "asyncio delivery order is outside the model: one step per datagram",
+        "the harvest of literals / constants / defaults reads the source files and the imported classes of the tree under test (ast, inspect); the baseline of known literals (BASELINE_LITERALS) only decides what is tried FIRST, never what is left out",
     ]
     ctx.assumptions += [
         "connection_made was called with a transport; a completion callback is installed",
@@ -1596,7 +2121,7 @@ def _run(ctx):
 
     def flush(component):
         if pairs and not ctx.search_only and ctx.driver_ok:
-            ctx.correspond(component, list(pairs))
+            corr.put(component, list(pairs))
         pairs.clear()
 
     for seq in CORPUS:
@@ -1657,6 +2182,10 @@ def _run(ctx):
     # ---- argument provenance: peer addresses of other shapes (AF_INET6 4-tuples, namedtuples, lists ...)
     run_peer_shapes(ctx, pairs, flush)
     mark("peer-shapes")
+    # ---- library sentinels, default attribute values and the literals of the current source as inputs
+    hv = Harvest()
+    sentinel_sections(ctx, hv, nm, pairs, flush)
+    mark("sentinels")
     # ---- scale: thousands of distinct peers on one handler instance.  With the storage's own linear lookup every datagram
     # costs O(peers); the big runs use the indexed storage subclass (see Sut), smaller ones the plain RepeaterStorage.
     salt = ctx.seed
@@ -1681,7 +2210,7 @@ def _run(ctx):
     # ---- random mixed histories
     for i in range(ctx.budget(400, 8000)):
         length = ctx.rng.choice([5, 20, 60, 150]) if i % 5 else 150
-        seq = [random_sym(ctx.rng, nm) for _ in range(length)]
+        seq = [random_sym(ctx.rng, nm, PEERS, hv if i % 2 else None) for _ in range(length)]
         prefix = []
         if i % 3 == 0:
             prefix = [("rdac", ctx.rng.choice(PEERS), d, False) for d in drive_to(ctx.rng.choice(STEP_ORDER))]
@@ -1715,9 +2244,9 @@ def replay(obj):
     syms = []
     for h in hist:
         if h[0] == "setout":
-            syms.append(("setout", uaddr(h[1]), tuple(h[2])))
+            syms.append(("setout", uaddr(h[1]), tuple(h[2]) if isinstance(h[2], list) else uj(h[2])))
         elif h[0] == "setattr":
-            syms.append(("setattr", uaddr(h[1]), h[2], h[3]))
+            syms.append(("setattr", uaddr(h[1]), h[2], uj(h[3])))
         else:
             syms.append((h[0], uaddr(h[1]), bytes.fromhex(h[2]), bool(h[3])))
 
